@@ -45,16 +45,18 @@ OBJS = {
     # receivers of captured values of other types / widths, Signed variable
     "w0": (35, "out", "s", 1, 12), "ws": (36, "out", "s", 1, 12), "sg": (37, "out", "s", 1, 8), "bv": (38, "out", "s", 1, 8),
     "vs": (39, "var", "v", 1, 8),
+    "q2": (40, "conc", "s", 1, 8),
 }
+HOIST_BASE = 41   # ids 41..48: signals of hoisted `always` expressions (model-internal, see prog_sexp(hoist=True))
 SIGNED = {"ws": 12, "sg": 8, "vs": 8}     # reported by the simulator as two's complement integers
 LOC_BASE = 21  # ids of locally declared signals
 INPUTS = ["c0", "c1", "c2", "c3", "x", "y", "idx"]
-PORT_OBS = ["o0", "o1", "o2", "o3", "p0", "p1", "q0", "q1", "b0", "b1", "b2", "p2", "pb", "w0", "ws", "sg", "bv"]
+PORT_OBS = ["o0", "o1", "o2", "o3", "p0", "p1", "q0", "q1", "q2", "b0", "b1", "b2", "p2", "pb", "w0", "ws", "sg", "bv"]
 INNER_OBS = ["s0", "v0", "v1", "vi", "arr", "va", "sb", "f0", "f1", "g0", "ps", "pn", "pr", "vs"]
-PRE_OBS = ["q0", "q1"]
-ALL_OBS = ["q0@pre", "q1@pre"] + PORT_OBS + INNER_OBS
+PRE_OBS = ["q0", "q1", "q2"]
+ALL_OBS = ["q0@pre", "q1@pre", "q2@pre"] + PORT_OBS + INNER_OBS
 SIG8 = ["o0", "o1", "o2", "o3", "s0"]       # assignable 8-bit signals
-RD_SIG8 = ["x", "y", "o0", "o1", "o2", "o3", "s0", "q0", "pn", "p2"]
+RD_SIG8 = ["x", "y", "o0", "o1", "o2", "o3", "s0", "q0", "pn", "p2", "q2"]
 VAR8 = ["v0", "v1"]
 PUSH8 = ["p0", "p1", "p2", "ps", "pn", "pr"]
 ALL_PUSHED = PUSH8 + ["pb"]
@@ -122,7 +124,8 @@ class Gen:
                 return ["nview", n, "unsigned"]
             return ["name", n]
         if r < 0.55:
-            return ["obj", rng.choice(RD_SIG8 if not sc.get("noq") else [n for n in RD_SIG8 if n != "q0"])]
+            pool = [n for n in RD_SIG8 if not (n == "q2" and sigonly)]
+            return ["obj", rng.choice(pool if not sc.get("noq") else [n for n in pool if n != "q0"])]
         if r < 0.75 and not sigonly:
             return ["obj", rng.choice(VAR8)]
         if r < 0.85:
@@ -464,6 +467,13 @@ class Gen:
                 out.append(["decl", nm, LOC_BASE + self.nloc, self.expr8(sc, allow_const=False)])
                 self.nloc += 1
                 sc["names"][nm] = "locsig"
+                if rng.random() < 0.6:
+                    # read the local signal through a derived reference (slice / view / bit) in the same activation
+                    self.stat("local-signal-derived-read")
+                    out.append(rng.choice([
+                        ["as", "n", ["sl", rng.choice(SIG8), rng.choice([0, 4]), 4], ["nsl", nm, rng.choice([0, 4]), 4], "op"],
+                        ["as", "n", ["obj", rng.choice(SIG8)], ["add", ["nview", nm, "unsigned"], ["c", 1, 8]], "op"],
+                        ["if", [[["nsl", nm, rng.randrange(8), 1], [self.assign(sc)]]], [self.assign(sc)]]]))
             elif r < 0.935 and sc["scope_top"] and sc["main"]:
                 self.ntmp += 1
                 nm = f"a{self.ntmp}"
@@ -699,6 +709,15 @@ class Gen:
             sc2 = dict(sc, noq=False)
             self.conc.append(["q1", self.expr8(sc2, 1, True, False)])
             self.stat("concurrent-assign")
+        if rng.random() < 0.5:
+            # a chain: q2 is computed from other concurrently driven signals
+            drv = [q for q, _ in self.conc] + (["q1"] if self.alwq else [])
+            e = self.expr8(dict(sc, noq=True), 1, True, False)
+            if drv:
+                e = ["add", ["obj", rng.choice(drv)], e] if rng.random() < 0.7 else ["ife", self.cond(sc, True), ["obj", rng.choice(drv)], e]
+            self.conc.append(["q2", e])
+            self.stat("concurrent-chain")
+        rng.shuffle(self.conc)      # the listing order of the assignments is irrelevant (C03.settle_order_independent)
 
 
 def gen_design(rng, size, depth):
@@ -897,6 +916,7 @@ def render_source(d):
     out.append(f"    b2 = Port.output(bool, default={bool(dfl.get('b2', 0))})")
     out.append("    q0 = Port.output(Unsigned[8], default=Null)")
     out.append("    q1 = Port.output(Unsigned[8], default=Null)")
+    out.append("    q2 = Port.output(Unsigned[8], default=Null)")
     out.append("")
     out.append("    def architecture(self):")
     out.append(f"        self.s0 = Signal[Unsigned[8]]({dfl['s0']}, name='s0')")
@@ -932,8 +952,10 @@ def render_source(d):
 
 
 class Sx:
-    def __init__(self, d):
+    def __init__(self, d, hoist=False):
         self.d = d
+        self.hoist = hoist      # render `with cohdl.always: t = e` as a concurrent assignment to a signal of its own
+        self.nhoist = 0
         self.k = 0
         self.conc = []
 
@@ -986,6 +1008,8 @@ class Sx:
             b = env[e[1]]
             if b[0] in ("tmp", "locsig"):
                 return f"(t {b[1]})"
+            if b[0] == "hoist":
+                return f"(rd s {b[1]} (c 0) 0 8)"
             if b[0] == "alias":      # `x = self.v`: the name denotes the object itself
                 return self.expr(["obj", b[1]], env)
             if b[0] == "aliasx":     # view / slice of an object: evaluated when it is used
@@ -1091,6 +1115,11 @@ class Sx:
             elif k == "cif":
                 if s[1]:
                     out.append(self.block(s[2], env))
+            elif k == "alw" and self.hoist:
+                hid = HOIST_BASE + self.nhoist
+                self.nhoist += 1
+                self.conc.append((hid, self.expr(s[2], env)))
+                env[s[1]] = ("hoist", hid)
             elif k in ("let", "alw"):
                 kk = self.fresh()
                 out.append(f"(cap {kk} {self.expr(s[2], env)})")
@@ -1128,23 +1157,24 @@ class Sx:
     def prog(self):
         d = self.d
         body = self.block(d["body"], {"__res": 0})
-        conc = [(q, self.expr(e, {})) for q, e in d["conc"]] + self.conc
-        # q1 may read q0: keep q0 first
-        conc.sort(key=lambda c: c[0])
+        # any listing order: the model settles the assignments in a topological order of their dependencies
+        conc = self.conc + [(q, self.expr(e, {})) for q, e in d["conc"]]
         objs = []
         for n, (i, kind, sp, nelem, w) in OBJS.items():
             dv = [d["dflt"].get(n, 0)] * 1 if nelem == 1 else [0] * nelem
             objs.append(f"(o {i} {sp} {nelem} {w} {' '.join(map(str, dv))})")
         for j in range(2):
             objs.append(f"(o {LOC_BASE + j} s 1 8 0)")
+        for j in range(8):
+            objs.append(f"(o {HOIST_BASE + j} s 1 8 0)")
         obs = [oid(n) for n in PORT_OBS + INNER_OBS]
-        cs = " ".join(f"(ca (tg {oid(q)} (c 0) 0 8) {e})" for q, e in conc)
+        cs = " ".join(f"(ca (tg {q if isinstance(q, int) else oid(q)} (c 0) 0 8) {e})" for q, e in conc)
         return (f"(prog (objs {' '.join(objs)}) (pushed {' '.join(str(oid(n)) for n in ALL_PUSHED)}) (body {body}) "
-                f"(conc {cs}) (obs {' '.join(map(str, obs))}) (pre {oid('q0')} {oid('q1')}))")
+                f"(conc {cs}) (obs {' '.join(map(str, obs))}) (pre {oid('q0')} {oid('q1')} {oid('q2')}))")
 
 
-def prog_sexp(d):
-    return Sx(d).prog()
+def prog_sexp(d, hoist=False):
+    return Sx(d, hoist).prog()
 
 
 # ---------------------------------------------------------------------------------------------------
@@ -1627,16 +1657,32 @@ def run(ctx: Ctx):
     flat = [f"run {sx} | {seq_tokens(s)}" for _, _, _, sx, _, seqs in jobs for s in seqs]
     model_flat = lean_io.query("C03", flat)
     low_flat = lean_io.query("C03", ["runlow" + l[3:] for l in flat])
+    # `always` expressions: the same body with every hoisted expression rendered as a concurrent assignment to a signal of its own
+    hoist_jobs = [(k, prog_sexp(j[1], hoist=True)) for k, j in enumerate(jobs) if '"alw"' in json.dumps(j[1]["body"])]
+    hoist_flat = lean_io.query("C03", [f"run {sxh} | {seq_tokens(s)}" for k, sxh in hoist_jobs for s in jobs[k][5]])
+    hoist_res, hp = {}, 0
+    for k, sxh in hoist_jobs:
+        hoist_res[k] = hoist_flat[hp: hp + len(jobs[k][5])]
+        hp += len(jobs[k][5])
     sims = fork_map(sim_task, [(vhdl, seqs) for *_, vhdl, seqs in jobs], fresh=False, chunk=4)
 
-    n_bad = n_low_bad = 0
+    n_bad = n_low_bad = n_hoist_bad = n_cyclic = 0
+    n_conc = sum(1 for j in jobs if j[1]["conc"] or '"alwq"' in json.dumps(j[1]["body"]))
     pos = 0
-    for (name, d, src, sx, vhdl, seqs), r in zip(jobs, sims):
+    for jk, ((name, d, src, sx, vhdl, seqs), r) in enumerate(zip(jobs, sims)):
         model = model_flat[pos: pos + len(seqs)]
         low = low_flat[pos: pos + len(seqs)]
         pos += len(seqs)
         if any(m == "bad-op" for m in model):
             raise InfraError("model driver rejected a generated program: " + sx[:300])
+        if any(m == "cyclic" for m in model):
+            n_cyclic += 1
+            raise InfraError("generator produced a cyclic / doubly driven concurrent context: " + src[-600:])
+        if jk in hoist_res and hoist_res[jk] != model:
+            n_hoist_bad += 1
+            ctx.report("c03:hoist:" + signature_of(d), "model-internal: the body with its `always` expressions hoisted into concurrent assignments "
+                       "disagrees with the in-place evaluation (C03.always_equals_inline does not cover this body?)",
+                       {"design": d, "source": src, "stmt": sx, "theorem": "C03.always_equals_inline"}, no_failing_input=True)
         st = d.get("stats", {})
         branching = sum(v for k, v in st.items() if k.startswith(("if", "match", "for-", "call")))
         kinds = len({k.split("-")[0] for k in st if k.split("-")[0] in ("sig", "var", "push")})
@@ -1677,6 +1723,11 @@ def run(ctx: Ctx):
                    n_bad == 0, detail=f"{len(jobs)} designs x {n_seq} sequences x {seq_len} clocks, {n_bad} differing designs")
     ctx.obligation("model-internal: procStep (lowerSeq body) = Seq.activate body evaluated on every generated body (instances of C03.lowerSeq_correct)",
                    n_low_bad == 0, detail=f"{len(flat)} traces")
+    ctx.obligation("concurrent contexts: settled model state (settle: topological evaluation of the shuffled assignment list, C03.concurrent_drives_current / "
+                   "C03.settle_order_independent) = simulated VHDL after settle before the clock edge and after every clock",
+                   n_bad == 0 and n_cyclic == 0, detail=f"{n_conc} designs with concurrent assignments (chains q0 -> q1 -> q2, if-expressions, select_with, always assignments)")
+    ctx.obligation("model-internal: `always` expressions hoisted into concurrent assignments = evaluated in place (instances of C03.always_equals_inline)",
+                   n_hoist_bad == 0, detail=f"{len(hoist_jobs)} designs with always expressions")
     ctx.extra["accepted"] = len(jobs)
     ctx.extra["rejected_by_compiler"] = n_rej
 
